@@ -9,3 +9,28 @@ Record rkind := mkrk {
                                 (* *_finish_suite adds the counter to its total *)
   rk_suite_via_finish_test : bool  (* *_finish_suite goes through reporter_finish_test *)
 }.
+
+(* translated pieces of the container code (src/vector.c, src/suite.c, src/breadcrumb.c); see Vector.v *)
+Record vsrc := mkvsrc {
+  v_step : Z;                       (* increase_space(): vector->space += step *)
+  v_must_grow : Z -> Z -> bool;     (* cgreen_vector_add(): size space => grow first *)
+  v_add_index : Z -> Z;             (* cgreen_vector_add(): index written, from size *)
+  v_illegal_remove : Z -> Z -> bool;(* cgreen_vector_remove(): position size => PANIC *)
+  v_shift_cond : Z -> Z -> bool;    (* loop condition: i size *)
+  v_shift_src : Z -> Z;             (* items[dst i] = items[src i] *)
+  v_shift_dst : Z -> Z;
+  v_clear_index : Z -> Z;           (* items[..] = NULL, from size *)
+  v_illegal_get : Z -> Z -> bool    (* cgreen_vector_get(): position size => PANIC *)
+}.
+
+Record ssrc := mkssrc {
+  s_new_size : Z -> Z;        (* suite->size++ *)
+  s_alloc_count : Z -> Z;     (* realloc(tests, sizeof(UnitTest) * <this>), from the new size *)
+  s_write_index : Z -> Z      (* tests[<this>] = ..., from the new size *)
+}.
+
+Record bsrc := mkbsrc {
+  b_must_grow : Z -> Z -> bool;   (* depth (already incremented) space *)
+  b_push_index : Z -> Z;          (* trail[<this>] = name, from the incremented depth *)
+  b_current_index : Z -> Z        (* get_current_from_breadcrumb: trail[<this>] *)
+}.
